@@ -616,27 +616,22 @@ theorem scan_log_step (fuel : Nat) (hN : NodeLog agg s src fuel) (hS : ScanLog a
   · cases h
   · cases h
   · next g gt c cs =>
-    have hin : ∀ l, InSiblings c.children l → InSiblings (matched ++ c :: cs) l :=
-      fun l hl => .under (by simp) hl
+    -- the trial `matchNode` runs on a copy of the aggregator: its log entries are dropped
     split at h
     · cases h
-    · next st1 hm =>
-      have g1 := (hN _ _ _ _ hm).mono hin
-      split at h
+    · split at h
       · next st2 he =>
         simp only [Except.ok.injEq] at h; subst h
-        refine ⟨g1.trans (Grows.push ?_ (logged_ellipsis agg he)), List.suffix_refl _⟩
+        refine ⟨Grows.push ?_ (logged_ellipsis agg he), List.suffix_refl _⟩
         exact .here (by simp only [List.append_nil]; exact (List.prefix_append _ _).isInfix)
       · simp only [Except.ok.injEq] at h; subst h
-        exact ⟨g1, List.suffix_refl _⟩
-    · next x st1 _ hm =>
-      have g1 := (hN _ _ _ _ hm).mono hin
-      split at h
+        exact ⟨Grows.refl, List.suffix_refl _⟩
+    · split at h
       · simp only [Except.ok.injEq] at h; subst h
-        exact ⟨g1, List.suffix_cons _ _⟩
+        exact ⟨Grows.refl, List.suffix_cons _ _⟩
       · next c2 cs2 =>
         obtain ⟨g2, s2⟩ := hS _ _ _ _ _ _ _ h
-        refine ⟨g1.trans ?_, s2.trans (List.suffix_cons _ _)⟩
+        refine ⟨?_, s2.trans (List.suffix_cons _ _)⟩
         simpa using g2
 
 theorem may_log_step (fuel : Nat) (hS : ScanLog agg s src fuel) :
@@ -682,6 +677,80 @@ theorem may_log_step (fuel : Nat) (hS : ScanLog agg s src fuel) :
                   exact ⟨Grows.refl, List.suffix_cons _ _⟩
           · have := hS _ _ _ _ _ _ _ h
             simpa using this
+
+/-- Since the trial comparison inside `ellipsisScan` runs on a copy of the aggregator, one
+`ellipsisScan` call logs only its own `ellipsis` call: an infix of `matched ++ cands`. -/
+theorem scan_log_direct (fuel : Nat) :
+    ∀ optName skipped goals cands matched st r,
+      ellipsisScan (logged agg) s src fuel optName skipped goals cands matched st = .ok r →
+      Grows (· <:+: matched ++ cands) st.2 r.2.2.2.2 := by
+  induction fuel with
+  | zero => intro optName skipped goals cands matched st r h; simp [ellipsisScan] at h
+  | succ fuel ih =>
+    intro optName skipped goals cands matched st r h
+    simp only [ellipsisScan] at h
+    split at h
+    · cases h
+    · cases h
+    · next g gt c cs =>
+      split at h
+      · cases h
+      · split at h
+        · next st2 he =>
+          simp only [Except.ok.injEq] at h; subst h
+          refine Grows.push ?_ (logged_ellipsis agg he)
+          simp only [List.append_nil]; exact (List.prefix_append _ _).isInfix
+        · simp only [Except.ok.injEq] at h; subst h; exact Grows.refl
+      · split at h
+        · simp only [Except.ok.injEq] at h; subst h; exact Grows.refl
+        · have := ih _ _ _ _ _ _ _ h
+          simpa using this
+
+/-- … and one `mayMatchEllipsis` call logs only infixes of its own candidate list -/
+theorem may_log_direct (fuel : Nat) :
+    ∀ goals cands st r, mayMatchEllipsis (logged agg) s src fuel goals cands st = .ok r →
+      Grows (· <:+: cands) st.2 r.2.2.2.2 := by
+  intro goals cands st r h
+  cases fuel with
+  | zero => simp [mayMatchEllipsis] at h
+  | succ fuel =>
+    simp only [mayMatchEllipsis] at h
+    split at h
+    · simp only [Except.ok.injEq] at h; subst h; exact Grows.refl
+    · next g gs =>
+      split at h
+      · simp only [Except.ok.injEq] at h; subst h; exact Grows.refl
+      · next optName hmode =>
+        split at h
+        · split at h
+          · next st' he =>
+            simp only [Except.ok.injEq] at h; subst h
+            exact Grows.push (by simp) (logged_ellipsis agg he)
+          · simp only [Except.ok.injEq] at h; subst h; exact Grows.refl
+        · next g1 gs1 =>
+          generalize skipTrivialGoals (g1 :: gs1) = sk at h
+          obtain ⟨skipped, gs'⟩ := sk
+          simp only at h
+          split at h
+          · split at h
+            · next st' he =>
+              simp only [Except.ok.injEq] at h; subst h
+              exact Grows.push (by simp) (logged_ellipsis agg he)
+            · simp only [Except.ok.injEq] at h; subst h; exact Grows.refl
+          · next g2 gt2 =>
+            split at h
+            · split at h
+              · cases h
+              · next c cs =>
+                split at h
+                · simp only [Except.ok.injEq] at h; subst h; exact Grows.refl
+                · split at h
+                  · next st' he =>
+                    simp only [Except.ok.injEq] at h; subst h
+                    exact Grows.push (List.prefix_append [c] _).isInfix (logged_ellipsis agg he)
+                  · simp only [Except.ok.injEq] at h; subst h; exact Grows.refl
+            · have := scan_log_direct agg s src fuel _ _ _ _ _ _ _ h
+              simpa using this
 
 theorem single_log_step (fuel : Nat) (hN : NodeLog agg s src fuel)
     (hS : SingleLog agg s src fuel) : SingleLog agg s src (fuel + 1) := by
@@ -864,7 +933,7 @@ theorem scan_sim_step (fuel : Nat) (hN : NodeSim agg s src fuel) (hS : ScanSim a
     · rfl
     · cases r
       · simp only [Except.map, dropLog1, matchEllipsis_logged]
-        cases matchEllipsis agg st1.1 optName matched [] skipped <;> rfl
+        cases matchEllipsis agg st.1 optName matched [] skipped <;> rfl
       all_goals
         simp only [Except.map, dropLog1]
         cases cs with
